@@ -17,11 +17,15 @@ func newAttributesInfo(attributes []px.Attribute, requiredCount int, equality []
 		posToName[ix] = at.Name()
 	}
 
-	ei := make([]int, 0, len(equality))
-	for _, e := range equality {
-		// An attribute without a position (derived, or left out of the serialization) has no stored value to compare
-		if ix, ok := nameToPos[e]; ok {
-			ei = append(ei, ix)
+	// A nil equality means that no equality is declared (all attributes participate). An empty one is a declaration.
+	var ei []int
+	if equality != nil {
+		ei = make([]int, 0, len(equality))
+		for _, e := range equality {
+			// An attribute without a position (derived, or left out of the serialization) has no stored value to compare
+			if ix, ok := nameToPos[e]; ok {
+				ei = append(ei, ix)
+			}
 		}
 	}
 
